@@ -14,7 +14,7 @@ ID = 'C05'
 LEVEL = 'exploration'
 RULE = ('Hypothesis-generated join / leave histories (duplicate joins, leaves of unknown members, re-joins) over a pool '
         'of 9 endpoints, interleaved with dispatch / complete / down / up / advance / leave-and-re-join of a member the aperture is just connecting to, against heap and aperture balancers '
-        'whose provider returns the initial list after a drawn delay (0-20 ms) while notifications are being delivered by '
+        'whose provider returns the initial list after a drawn delay (0-20 ms), in some plans only after one or two failed loads (an IOError, or gevent.Timeout as kazoo raises it; the balancer retries every 5 s) while notifications are being delivered by '
         'a single serial notifier. At every quiescent step after loading: balancer\'s known servers == model server set; '
         'heap endpoints == server set (heap) or active + idle partition == server set (aperture). At the end, for the '
         'heap balancer, a saturating probe (all members up, nothing outstanding, one request per member) must touch '
@@ -41,7 +41,9 @@ def strategy(tier):
       (2, st.tuples(st.just('advance'), st.sampled_from([1, 2, 5, 10, 30])).map(list)),
       (2, st.tuples(st.just('flap_pending'), st.integers(0, 3)).map(list)),
   ]
-  cfg = lb_config().flatmap(lambda c: st.sampled_from([0, 0, 3, 10, 20]).map(lambda d: dict(c, getservers_delay_ms=d)))
+  cfg = lb_config().flatmap(lambda c: st.tuples(st.sampled_from([0, 0, 3, 10, 20]),
+                                                st.sampled_from([None, None, None, ['error', 1], ['timeout', 1], ['timeout', 2]])).map(
+      lambda t: dict(c, getservers_delay_ms=t[0], provider_fail=t[1])))
   return st.fixed_dictionaries({'config': cfg, 'ops': sized_list(weighted(*pairs), 0, 70 if tier == 'quick' else 180)})
 
 
@@ -53,7 +55,8 @@ def execute(plan):
     run.run_ops()
     run.step += 1
     run.cur_op = ['final']
-    advance(0.1)
+    pf = plan['config'].get('provider_fail')
+    advance(0.1 + (5.0 * pf[1] + 0.1 if pf else 0))
     run.after_step()
     if not run.lb_init_done():
       run.viol(ID, 'init-never-done', 'initial member list never finished loading')
